@@ -1,4 +1,5 @@
 import Libp2pModel.Model.C08
+import Libp2pModel.Model.C09
 namespace Driver.C08
 open Drv
 open _root_.C08
@@ -41,20 +42,38 @@ def parseCompletes (tok : String) : Option (List (Nat × Bool)) :=
     | [i, "err"] => i.toNat?.map (·, false)
     | _ => none
 
-/-- monitor: n, k and the outcomes decided so far (first decision per dial counts, none after the result) -/
+/-- `SmartDial::new` over the given addresses: rank them with the C09 model; dial numbers are input
+positions (1-based) -/
+def smartCfg (addrs : List Maddr) : List Nat × List (Nat × Nat) :=
+  let ranked := _root_.C09.rank addrs
+  let idx := fun (a : Maddr) => (addrs.findIdx (· == a)) + 1
+  (ranked.map (fun e => idx e.2), ranked.map (fun e => (idx e.2, e.1)))
+
+/-- monitor: n, k, the outcomes decided so far (first decision per dial counts, none after the result,
+in smart mode none for a dial that was not started), the clock, the time of the first poll and the
+start times reconstructed from the implementation's observations -/
 structure Mon where
   n : Nat := 0
   k : Nat := 1
   outs : List (Nat × Bool) := []
   resolved : Bool := false
+  smart : Bool := false
+  delays : List (Nat × Nat) := []
+  now : Nat := 0
+  firstPoll : Option Nat := none
+  prevStarted : List Nat := []
+  startedAt : List (Nat × Nat) := []
 
 def applyOp (s : St) : List String → Option St
   | ["new", "c", n, k] => match n.toNat?, k.toNat? with
     | some n, some k => some (new n k)
     | _, _ => none
-  | ["new", "s", n] => n.toNat?.map fun n => poll (new n (max n 1))
+  | ["new", "s", l] => (Maddr.parseList l).map fun addrs =>
+      let c := smartCfg addrs
+      newSmart c.1 c.2
   | ["complete", l] => (parseCompletes l).map fun cs => cs.foldl (fun s c => complete s c.1 c.2) s
   | ["poll"] => some (poll s)
+  | ["adv", d] => d.toNat?.map (advance s)
   | _ => none
 
 def machine : Machine St Mon where
@@ -67,18 +86,33 @@ def machine : Machine St Mon where
   spec mon args outs :=
     let mon1 : Mon := match args with
       | ["new", "c", n, k] => { n := n.toNat?.getD 0, k := k.toNat?.getD 1 }
-      | ["new", "s", n] => { n := n.toNat?.getD 0, k := max (n.toNat?.getD 0) 1 }
+      | ["new", "s", l] =>
+        match Maddr.parseList l with
+        | some addrs => { n := addrs.length, k := max addrs.length 1, smart := true, delays := (smartCfg addrs).2 }
+        | none => mon
       | ["complete", l] =>
         if mon.resolved then mon else
         match parseCompletes l with
         | some cs => { mon with outs := cs.foldl (fun o c =>
-            if (o.find? (·.1 == c.1)).isSome || c.1 == 0 || c.1 > mon.n then o else o ++ [c]) mon.outs }
+            if (o.find? (·.1 == c.1)).isSome || c.1 == 0 || c.1 > mon.n
+                || (mon.smart && !mon.prevStarted.contains c.1) then o else o ++ [c]) mon.outs }
         | none => mon
+      | ["adv", d] => { mon with now := mon.now + d.toNat?.getD 0 }
+      | ["poll"] => if mon.firstPoll.isSome then mon else { mon with firstPoll := some mon.now }
       | _ => mon
     match parseObs outs with
     | some o =>
+      let fresh := o.started.filter (fun a => !mon1.prevStarted.contains a)
+      let sat := mon1.startedAt ++ fresh.map (fun a => (a, mon1.now))
+      let delay := fun a => ((mon1.delays.find? (·.1 == a)).map (·.2)).getD 0
       let key := specKey mon1.n mon1.k mon1.outs o
-      ({ mon1 with resolved := o.result.isSome }, if key == "" then "ok" else "FAIL:" ++ key)
+      let verdict :=
+        if key != "" then "FAIL:" ++ key
+        else if mon1.resolved && !fresh.isEmpty then "FAIL:started_after_finish"
+        else if !mon1.prevStarted.all o.started.contains then "FAIL:start_forgotten"
+        else if !gateOk delay mon1.firstPoll sat then "FAIL:started_before_delay"
+        else "ok"
+      ({ mon1 with resolved := o.result.isSome, prevStarted := o.started, startedAt := sat }, verdict)
     | none => (mon1, "FAIL:unparsable")
 
 end Driver.C08
